@@ -1380,3 +1380,103 @@ def tok_14(ctx, rep):
            'a line can be finished (continue / end of the body) before the first-line block has run: the BOM and the start '
            'column are then applied to a later line; path: %s' % (' -> '.join(path_text(p)) if p else ''),
            witness=path_text(p) if p else None)
+
+
+# ---------------------------------------------------------------------------------------------------------------
+# TOK-15  the dispatch of tokenize_lines types as NUMBER exactly what the Number pattern matches
+def tok_15(ctx, rep):
+    """The branch of the token dispatch that yields NUMBER is guarded by a condition over the first / last character and
+    the spelling of the token.  That condition is a regular language C over the token text; the obligation is
+    L(Number) <= C (every number is typed NUMBER) and no operator spelling in C (seed rt14-C10: `token[-1] in numchars`
+    loses `.5j`)."""
+    import re as _re
+    from .. import rx
+    rep.rule('TOK-15', 'the condition under which tokenize_lines yields NUMBER, read as a regular language over the token text, '
+                       'contains every string of the Number pattern and no operator spelling')
+    f = ctx.prog.func(TOK, 'tokenize_lines')
+    guard = None
+    for n in walk_own(f.node):
+        if isinstance(n, ast.If) and any(_yield_token_type(s) == 'NUMBER' for s in n.body):
+            guard = n
+    if guard is None:
+        raise AnalysisError('TOK-15: the branch that yields NUMBER was not found')
+    # constants the condition mentions (numchars ...)
+    def const(name):
+        vals = [a.value for a in ast.walk(f.node) if isinstance(a, ast.Assign) and any(isinstance(t, ast.Name) and t.id == name for t in a.targets)]
+        if len(vals) == 1 and isinstance(vals[0], ast.Constant) and isinstance(vals[0].value, str):
+            return vals[0].value
+        try:
+            v = ctx.folder(TOK).get(name)
+        except AnalysisError:
+            return None
+        return v if isinstance(v, str) else None
+
+    atoms_ = []         # regex sources
+
+    def cls(chars):
+        return '[%s]' % ''.join(_re.escape(c) for c in sorted(set(chars)))
+
+    def atom(src):
+        if src not in atoms_:
+            atoms_.append(src)
+        return ('atom', atoms_.index(src))
+
+    def chars_of(e):
+        if isinstance(e, ast.Constant) and isinstance(e.value, str):
+            return e.value
+        if isinstance(e, ast.Name):
+            return const(e.id)
+        return None
+
+    def tr(e):
+        if isinstance(e, ast.BoolOp):
+            return ('and' if isinstance(e.op, ast.And) else 'or', [tr(v) for v in e.values])
+        if isinstance(e, ast.UnaryOp) and isinstance(e.op, ast.Not):
+            return ('not', tr(e.operand))
+        if isinstance(e, ast.Compare) and len(e.ops) == 1:
+            l, op, r = e.left, e.ops[0], e.comparators[0]
+            ltxt = norm(l)
+            pos = {'initial': 'first', 'token[0]': 'first', 'token[-1]': 'last', 'token': 'whole'}.get(ltxt)
+            if pos is not None:
+                neg = isinstance(op, (ast.NotEq, ast.NotIn))
+                if isinstance(op, (ast.Eq, ast.NotEq)):
+                    lit = chars_of(r)
+                    if lit is not None:
+                        body = _re.escape(lit) if pos == 'whole' else cls(lit) if len(lit) == 1 else None
+                        if body is not None:
+                            src = body if pos == 'whole' else (body + '(?s:.*)' if pos == 'first' else '(?s:.*)' + body)
+                            a = atom(src)
+                            return ('not', a) if neg else a
+                if isinstance(op, (ast.In, ast.NotIn)):
+                    if pos == 'whole' and isinstance(r, (ast.Tuple, ast.List, ast.Set)) and all(isinstance(x, ast.Constant) and isinstance(x.value, str) for x in r.elts):
+                        a = atom('(?:%s)' % '|'.join(_re.escape(x.value) for x in r.elts))
+                        return ('not', a) if neg else a
+                    chars = chars_of(r)
+                    if chars is not None and pos in ('first', 'last'):
+                        a = atom(cls(chars) + '(?s:.*)' if pos == 'first' else '(?s:.*)' + cls(chars))
+                        return ('not', a) if neg else a
+        raise AnalysisError('TOK-15: the NUMBER condition contains a test that is not modelled: %s' % norm(e))
+    formula = tr(guard.test)
+
+    def ev(fm, flags):
+        k = fm[0]
+        if k == 'atom':
+            return flags[fm[1]]
+        if k == 'not':
+            return not ev(fm[1], flags)
+        if k == 'and':
+            return all(ev(x, flags) for x in fm[1])
+        return any(ev(x, flags) for x in fm[1])
+    nfas = [rx.compile_nfa(a) for a in atoms_]
+    for version in ((3, 6), (3, 12)):
+        env = ctx.token_collection(version)
+        number = rx.compile_nfa(env['Number'])
+        w = rx._search(nfas + [number], lambda fl: fl[-1] and not ev(formula, fl[:-1]))
+        rep.ob('TOK-15', TOK, f.qual, 'every Number (%d.%d) satisfies `%s`' % (version + (norm(guard.test, 120),)), w is None,
+               'the literal %r matches the Number pattern but not the condition of the NUMBER branch: it is typed by a later '
+               'branch (operator / name)' % (w,), witness=w)
+        ops = [o for o in rx.finite_language(rx.compile_nfa(env['Funny'])) if o and o[0] not in '\r\n']
+        bad = [o for o in ops if ev(formula, [rx.nfa_accepts(a, o) for a in nfas])]
+        rep.ob('TOK-15', TOK, f.qual, 'no operator spelling (%d.%d) satisfies the NUMBER condition' % version, not bad,
+               'the operator %r satisfies the condition of the NUMBER branch' % (bad[:3],), witness=bad[0] if bad else None)
+    rep.minimum('TOK-15', 4)
